@@ -2,10 +2,11 @@
 import itertools
 import radlib as R
 ID = "C16"
-LEAN_TARGETS = ["Rsp.Props.C16"]
+LEAN_TARGETS = ["Rsp.Props.C16", "Rsp.Props.C16RoundTrip"]
 THEOREMS = ["Rsp.Props.C16.server_framing_depends_only_on_stream", "Rsp.Props.C16.segmentation_independent", "Rsp.Props.C16.readN_blocking",
             "Rsp.Props.C16.radGet_blocking", "Rsp.Props.C16.pollScript_blocking", "Rsp.Props.C16.framesOut_step", "Rsp.Props.C16.checkedRadLength_pos_iff",
-            "Rsp.Props.C16.client_packets_prefix_of_framing", "Rsp.Props.C16.radGet_nb", "Rsp.Props.C16.readN_nb"]
+            "Rsp.Props.C16.client_packets_prefix_of_framing", "Rsp.Props.C16.radGet_nb", "Rsp.Props.C16.readN_nb",
+            "Rsp.Props.C16.framesOut_concat", "Rsp.Props.C16.server_reads_what_was_written"]
 RULE = ("the real radtcpget/tcpreadtimeout on loopback TCP and the real radtlsget/sslreadtimeout on a TLS session, peers scripted from inside poll(): streams of 1..4 packets of lengths 20..4096 (boundary lengths 20,21,4095,4096), "
         "EVERY split point of short streams (exhaustive two-way partitions), random partitions of long ones incl. 1-octet writes and splits inside the 4-octet header, stalls longer "
         "than the reader's timeout at every position, end of stream at every offset, length fields 0..19 and 4097..65535; server-side loop (no timeout) and client-side loop "
